@@ -5,7 +5,7 @@ usage: gen_conf.py <src conf dir> <variant> <out dir>
 """
 import sys, os, re, shutil
 
-VARIANTS = ['rename_keys', 'rename_types', 'separators', 'insert_level', 'renamed_everything']
+VARIANTS = ['leaf_extrapolation', 'rename_keys', 'rename_types', 'separators', 'insert_level', 'renamed_everything', 'all_changes']
 
 
 def sub_all(text, pairs):
@@ -47,6 +47,19 @@ def insert_level(t, name):
     return t
 
 
+def insert_level_renamed(t, name):
+    """insert_level on a text that already went through the renamings"""
+    if name == 'spil_sid_conf.py':
+        t = t.replace("{project}/{type:s}/{episode}", "{project}/{type:s}/{unit}/{episode}")
+        t = t.replace("'cut': ['project', 'type', 'episode'", "'cut': ['project', 'type', 'unit', 'episode'")
+    if name == 'spil_fs_conf.py':
+        t = t.replace("{type:SHOTS}/{episode}", "{type:SHOTS}/{unit}/{episode}")
+        t = t.replace("    'cut':                    '{@project_root}/{project}/PRODUCTION/{type:SHOTS}',",
+                      "    'cut__unit':              '{@project_root}/{project}/PRODUCTION/{type:SHOTS}/{unit}',\n"
+                      "    'cut':                    '{@project_root}/{project}/PRODUCTION/{type:SHOTS}',")
+    return t
+
+
 def main():
     src, variant, out = sys.argv[1:4]
     os.makedirs(out, exist_ok=True)
@@ -62,14 +75,20 @@ def main():
             continue
         t = open(p).read()
         if name in ('spil_sid_conf.py', 'spil_fs_conf.py', 'spil_fs_server_conf.py', 'spil_data_conf.py'):
-            if variant in ('rename_keys', 'renamed_everything'):
+            if variant in ('rename_keys', 'renamed_everything', 'all_changes'):
                 t = rename_keys(t)
-            if variant in ('rename_types', 'renamed_everything'):
+            if variant in ('rename_types', 'renamed_everything', 'all_changes'):
                 t = rename_types(t)
-            if variant in ('separators', 'renamed_everything'):
+            if variant in ('separators', 'renamed_everything', 'all_changes'):
                 t = separators(t)
             if variant == 'insert_level':
                 t = insert_level(t, name)
+            if variant == 'all_changes':
+                t = insert_level_renamed(t, name)
+            if variant in ('all_changes', 'leaf_extrapolation') and name == 'spil_sid_conf.py':
+                # extrapolation starts at the leaf types while the state templates stay explicitly configured
+                t = re.sub(r"to_extrapolate = \['(\w+)__(state|status)', '(\w+)__(state|status)'\]",
+                           r"to_extrapolate = ['\1__file', '\3__file']", t)
         open(os.path.join(out, name), 'w').write(t)
     print('generated', variant, 'in', out)
 
